@@ -77,13 +77,24 @@ def rt2 (M : Mat 2 2 R) (t : Vec 2 R) : Mat 3 3 R :=
   (v3 ((v3 (M 0 0) (M 0 1) (t 0))) ((v3 (M 1 0) (M 1 1) (t 1))) ((v3 0 0 1)))
 
 /-- special orthogonal -/
-def IsSO3 (M : Mat 3 3 R) : Prop := mmul M (mT M) = one3 ∧ det3 M = 1
-def IsSO2 (M : Mat 2 2 R) : Prop := mmul M (mT M) = one2 ∧ det2 M = 1
+structure IsSO3 (M : Mat 3 3 R) : Prop where
+  orth : mmul M (mT M) = one3
+  det : det3 M = 1
+structure IsSO2 (M : Mat 2 2 R) : Prop where
+  orth : mmul M (mT M) = one2
+  det : det2 M = 1
 /-- rigid motion: rotation block special orthogonal and last row exactly [0 … 0 1] -/
-def IsSE3 (T : Mat 4 4 R) : Prop :=
-  IsSO3 (rotOf3 T) ∧ T 3 0 = 0 ∧ T 3 1 = 0 ∧ T 3 2 = 0 ∧ T 3 3 = 1
-def IsSE2 (T : Mat 3 3 R) : Prop :=
-  IsSO2 (rotOf2 T) ∧ T 2 0 = 0 ∧ T 2 1 = 0 ∧ T 2 2 = 1
+structure IsSE3 (T : Mat 4 4 R) : Prop where
+  rot : IsSO3 (rotOf3 T)
+  r0 : T 3 0 = 0
+  r1 : T 3 1 = 0
+  r2 : T 3 2 = 0
+  r3 : T 3 3 = 1
+structure IsSE2 (T : Mat 3 3 R) : Prop where
+  rot : IsSO2 (rotOf2 T)
+  r0 : T 2 0 = 0
+  r1 : T 2 1 = 0
+  r2 : T 2 2 = 1
 
 end
 end SmVerif
